@@ -122,10 +122,59 @@ def run_case(ctx, i, rng):
                 except ValueError:
                     pass
     uniquify(n)
+    if not flatten_phase(ctx, n, rng, i):
+        return
+    if i % 6 == 5 or i % 3 == 1:
+        # the flat netlist (its elements now carry the identifiers flatten minted) is extended by a new piece of hierarchy and
+        # flattened again in the same process
+        top = n.top_instance.reference
+        leafs = [c.reference for c in top.children if c.reference is not None and c.reference.is_leaf() and c.reference.library is not None]
+        if not leafs:
+            return
+        lib = top.library
+        try:
+            ext = lib.create_definition("EXT_%d" % i)
+            ext["EDIF.identifier"] = "EXT_%d" % i
+            pin_ = ext.create_port("ein", pins=1, direction=sdn.IN)
+            pin_["EDIF.identifier"] = "ein"
+            kids = []
+            for k_ in range(rng.randint(1, 3)):
+                lf = rng.choice(leafs)
+                if lf.library is not lib and lf.library is not None and False:
+                    continue
+                ch = ext.create_child("e%d" % k_, reference=lf)
+                ch["EDIF.identifier"] = "e%d" % k_
+                kids.append(ch)
+            for k_ in range(rng.randint(1, 3)):
+                cb = ext.create_cable("enet%d" % k_, wires=1)
+                cb["EDIF.identifier"] = "cable_sdn_flat_%d" % rng.randrange(0, 12)
+                w_ = cb.wires[0]
+                if k_ == 0:
+                    w_.connect_pin(pin_.pins[0])
+                for ch in kids:
+                    free = [op for op in ch.pins if op.wire is None]
+                    if free and rng.random() < 0.6:
+                        w_.connect_pin(rng.choice(free))
+            for k_ in range(rng.randint(1, 2)):
+                x_ = top.create_child("ext%d" % k_, reference=ext)
+                x_["EDIF.identifier"] = "ext%d" % k_
+                tw = [w for c in top.cables for w in c.wires]
+                if tw:
+                    rng.choice(tw).connect_pin(x_.pins[pin_.pins[0]])
+        except ValueError:
+            ctx.count("extension_refused_by_naming")
+            return
+        ctx.count("netlists_extended_and_flattened_again")
+        uniquify(n)
+        flatten_phase(ctx, n, rng, i, "second-flatten:")
+
+
+def flatten_phase(ctx, n, rng, i, tag=""):
+    """uniquified netlist -> flatten under the monitors; True when everything held"""
     e0 = Elab(n, max_occ=2500)
     if e0.truncated:
         ctx.count("discarded_too_large")
-        return
+        return False
     st = gen_ir.shape_stats(n)
     key = lambda p: "/".join(x.name for x in p)  # noqa: E731
     want_leaves = {key(p): (id(p[-1].reference), data_of(p[-1])) for p in e0.leaf_occ}
@@ -157,42 +206,43 @@ def run_case(ctx, i, rng):
             try:
                 flatten(n)
             except budget.StepBudgetExceeded:
-                ctx.violation("flatten-does-not-terminate", "step budget %d exceeded on %s" % (b.limit, st))
-                return
+                ctx.violation(tag + "flatten-does-not-terminate", "step budget %d exceeded on %s" % (b.limit, st))
+                return False
             except Exception as ex:  # noqa: BLE001
-                ctx.violation("flatten-raised:%s" % type(ex).__name__, "%r at %s on %s" % (ex, probes.innermost_frame(ex), st))
-                return
+                ctx.violation(tag + "flatten-raised:%s" % type(ex).__name__, "%r at %s on %s" % (ex, probes.innermost_frame(ex), st))
+                return False
     finally:
         probes.reset_hooks()
     ctx.count("flattened")
     ctx.count("flatten_steps", b.count)
     if hook_state["bad"]:
-        ctx.violation("invariant-inside-flatten:%s" % hook_state["bad"][1][0], "%s at exit of %s" % (hook_state["bad"][1][1], hook_state["bad"][0]))
-        return
+        ctx.violation(tag + "invariant-inside-flatten:%s" % hook_state["bad"][1][0], "%s at exit of %s" % (hook_state["bad"][1][1], hook_state["bad"][0]))
+        return False
     leaves, non_leaf, classes, nchildren = read_flat(n)
     if non_leaf:
-        ctx.violation("hierarchy-remains", "non-leaf children of the top after flatten: %s | %s" % (non_leaf[:4], st))
-        return
+        ctx.violation(tag + "hierarchy-remains", "non-leaf children of the top after flatten: %s | %s" % (non_leaf[:4], st))
+        return False
     ctx.count("leaf_occurrences_compared", len(want_leaves))
     if nchildren != len(want_leaves) or leaves != want_leaves:
         missing = sorted(set(want_leaves) - set(leaves))[:4]
         extra = sorted(set(leaves) - set(want_leaves))[:4]
         diff = [k for k in want_leaves if k in leaves and leaves[k] != want_leaves[k]][:4]
-        ctx.violation("leaf-set-changed", "leaves differ: missing %s extra %s changed def/data %s (children=%d, wanted=%d) | %s" % (
+        ctx.violation(tag + "leaf-set-changed", "leaves differ: missing %s extra %s changed def/data %s (children=%d, wanted=%d) | %s" % (
             missing, extra, diff, nchildren, len(want_leaves), st))
-        return
+        return False
     ctx.count("endpoint_classes_compared", len(want_part))
     got = set(classes)
     if len(got) != len(classes) or got != want_part:
         a, b2 = want_part - got, got - want_part
-        ctx.violation("connectivity-changed", "endpoint partition differs: %d classes only before (sizes %s), %d only after (sizes %s) | %s" % (
+        ctx.violation(tag + "connectivity-changed", "endpoint partition differs: %d classes only before (sizes %s), %d only after (sizes %s) | %s" % (
             len(a), sorted(len(x) for x in a)[:6], len(b2), sorted(len(x) for x in b2)[:6], st))
-        return
+        return False
     errs = wf.self_contained(n)
     if errs:
-        ctx.violation("ill-formed:" + errs[0][0], "%s after flatten | %s" % (errs[0][1], st))
-        return
+        ctx.violation(tag + "ill-formed:" + errs[0][0], "%s after flatten | %s" % (errs[0][1], st))
+        return False
     ctx.fingerprint((st, sorted(len(c) for c in want_part)), depth >= 2 and crossing >= 1)
     if i < 3:
         ctx.sample({"shape_before": st, "leaf_occurrences": len(want_leaves), "endpoint_classes": len(want_part),
                     "classes_crossing_levels": crossing, "depth": depth, "example_leaf_paths": sorted(want_leaves)[:5]})
+    return True
